@@ -118,8 +118,36 @@ def readPatchLoop : (fuel : Nat) → List PatchOp → PDiff → Outcome PDiff
       | .panic => .panic
       | .ok (e, rest) => readPatchLoop fuel rest (acc ++ [e])
 
-/-- `ReadPatchString` on the parsed JSON document of the patch text (`json.Unmarshal` into
-    `[]patchElement` is the one of the v2 model) -/
+/-- `json.Unmarshal(text, &[]patchElement)` of the v1 library (lib/diff_read.go, NOT touched by the fix
+    of D31 in v2) on the parsed document: the text `null` is the empty patch, a `null` element is the
+    zero patchElement, a missing or null `op` / `path` is "", a missing `value` is null. Field names
+    are matched exactly here (encoding/json also accepts other letter cases; the harness does not
+    generate them for v1). -/
+def patchOpsOfJson : Json → Outcome (List PatchOp)
+  | .null => .ok []
+  | .arr _ xs => go xs
+  | _ => .err
+where
+  strField (kvs : List (String × Json)) (k : String) : Outcome String :=
+    match alookup k kvs with
+    | none => .ok ""
+    | some .null => .ok ""
+    | some (.str s) => .ok s
+    | some _ => .err
+  go : List Json → Outcome (List PatchOp)
+    | [] => .ok []
+    | .obj kvs :: r => do
+      let op ← strField kvs "op"
+      let path ← strField kvs "path"
+      let value := (alookup "value" kvs).getD .null
+      let rest ← go r
+      pure ({ op, path, value } :: rest)
+    | .null :: r => do
+      let rest ← go r
+      pure ({ op := "", path := "", value := .null } :: rest)
+    | _ :: _ => .err
+
+/-- `ReadPatchString` on the parsed JSON document of the patch text -/
 def readPatchDoc (doc : Json) : Outcome PDiff :=
   match patchOpsOfJson doc with
   | .ok ops => readPatchLoop (ops.length + 1) ops []
